@@ -26,6 +26,12 @@ def isRangeSugar (n : String) (args : List PExp) : Bool :=
   | "range", [_, _, .bool _] => true
   | _, _ => false
 
+/-- the entries of `a, b, c` -/
+def splitItems : List Char → List Char → List (List Char)
+  | [], cur => [cur.reverse]
+  | ',' :: ' ' :: r, cur => cur.reverse :: splitItems r []
+  | c :: r, cur => splitItems r (c :: cur)
+
 /-- natural numbers of the display of an integer array (`[1, 2, 3]`), if it is one -/
 def intArrayOf (d : String) : Option (List Nat) :=
   match d.toList with
@@ -35,8 +41,8 @@ def intArrayOf (d : String) : Option (List Nat) :=
       let body := body.reverse
       if body.isEmpty then some []
       else
-        let items := (String.ofList body).splitOn ", "
-        if items.all (fun it => !it.toList.isEmpty && it.toList.all isDigit) then some (items.map (fun it => digitsToNat it.toList))
+        let items := splitItems body []
+        if items.all (fun it => !it.isEmpty && it.all isDigit) then some (items.map digitsToNat)
         else none
     | _ => none
   | _ => none
